@@ -13,6 +13,7 @@ import (
 
 	"gxverif/hx"
 	gi "gxverif/ipam"
+	"gxverif/plugin"
 )
 
 const prop = "C05"
@@ -129,6 +130,35 @@ func (rn *runner) retryHistory(length int) {
 	rn.R.Case(strings.Join(s.Src, "\n"), okChanges >= 3)
 }
 
+// podCrashSweep: the pod-level half of the crash clause on the REAL scheduler plugin (harness/plugin): ops of generated
+// histories are re-executed from the same prefix with the process dying before external call 1, 2, 3, …; the new process
+// restarts on the store and runs one resync pass; monitors (one owner per address and store = memory; every live bound
+// pod keeps its addresses; reservations) run after the restart and after the resync, and every experiment is compared
+// with the plugin model's `crashAt` (gxdrv_plugin).  Violations are reported as crash:<monitor>:<move>@<k>.
+func podCrashSweep(e *hx.Env, r *hx.Report) {
+	cp := plugin.DefaultParams()
+	cp.Len = 30
+	mon := plugin.WithReserved(plugin.Monitors(plugin.MonitorC01, plugin.MonitorC04))
+	b := plugin.RunCrashSweep(e, prop, e.N(120, 1500), 8, cp, mon)
+	for i := range b.Violations {
+		v := &b.Violations[i]
+		move, k := "?", "?"
+		for _, l := range v.Ops {
+			f := strings.Fields(l)
+			if len(f) >= 4 && f[0] == "crash" {
+				k, move = f[1], f[3]
+			}
+		}
+		v.Signature = fmt.Sprintf("crash:%s:%s@%s", strings.TrimPrefix(v.Signature, "after-crash:"), move, k)
+	}
+	for k, v := range b.Stats {
+		r.Histogram["pod-"+k] += v
+	}
+	b.Stats = map[string]int{}
+	b.Fill(r)
+	r.Extra["pod_level_crash_experiments"] = r.Histogram["pod-crash-experiments"]
+}
+
 func run(e *hx.Env) *hx.Report {
 	rn := &runner{gi.NewRunner(e, prop,
 		"a history is nontrivial when at least 3 of its moves succeeded and changed state; every op of every enumerated history is "+
@@ -149,6 +179,7 @@ func run(e *hx.Env) *hx.Report {
 		rn.retryHistory(length + 10)
 	}
 	rn.Flush()
+	podCrashSweep(e, rn.R)
 	rn.R.Extra["fault_enumeration"] = "every store-call index 0..n+1 (fail), 0..n (crash before / after) of every op of every enumerated history, from the same prefix"
 	return rn.R
 }
